@@ -135,6 +135,11 @@ def oracle(prim, fall, order, close_at, out, fb_seen_from):
         return (close_at is None or t < close_at) and prim[t] == "v"
 
     t0 = next((t for t in range(L) if not prim_valid(t)), None)
+    # bounded start-up: the fallback is started while the first failing timestamp is processed, so it
+    # sees the fallback stream's sample of the following timestamp at the latest
+    if t0 is not None and t0 + 1 < L and (fb_seen_from is None or fb_seen_from > t0 + 1):
+        v.append(("fallback_started_at_first_failure", {"first_failing_timestamp": t0, "fallback_first_seen_for": fb_seen_from, "outputs": out}))
+        return v
     for t in range(L):
         pv = prim_valid(t)
         if pv:
